@@ -1,5 +1,6 @@
 #!/bin/bash
 # usage: pmatrix_one.sh <mutant-dir> <row-dir> [tier]
+# (PM_PROPS="04 20" restricts the row to some checks.)
 # One row of the detection matrix on private copies: /verif (as it is on disk, build caches
 # included) and a scratch worktree of /repo with the patch applied. Neither /verif nor /repo's
 # working tree is touched, so several rows can run at once. The copies are removed at the end.
@@ -16,7 +17,7 @@ sed -i "s#path = \"/repo\"#path = \"$w/repo\"#" $w/verif/harness/Cargo.toml
 sed -i "s#/repo/src#$w/repo/src#g" $w/verif/tools/specials.py
 sed -i "s#/verif/.build/harness#$w/verif/.build/harness#" $w/verif/harness/.cargo/config.toml
 line="$name"
-for i in 01 02 03 04 05 06 07 08 09 10 11 12 13 14 15 16 17 18 19 20; do
+for i in ${PM_PROPS:-01 02 03 04 05 06 07 08 09 10 11 12 13 14 15 16 17 18 19 20}; do
   r=$(cd $w/verif && ./check C$i --tier $tier 2>&1 | grep -E "VIOLATION" | head -1)
   if [ -z "$r" ]; then s="."; elif echo "$r" | grep -q "no-failing-input-found"; then s="n"; else s="V"; fi
   line="$line C$i=$s"
